@@ -293,7 +293,7 @@ pub fn run_c08(ctx: &Ctx) -> i32 {
             steps.extend(t.iter().cloned());
             n += 1;
             let doc = |k: usize| json!({"check": "C08", "phase": "pipeline", "steps": steps.iter().map(|s| json!({"answer": format!("{:?}", s.ans), "phc_file_readable": s.phc_readable, "gap_ms": s.gap_ms})).collect::<Vec<_>>(), "failing_step": k});
-            let res = match poller_run(&steps, true, &dir) {
+            let res = match poller_run(&steps, true, &dir, false) {
                 Ok(r) => r,
                 Err(e) => {
                     sink.add("C08:pipeline:poller-panic".into(), e, doc(0));
@@ -853,9 +853,17 @@ pub struct Step {
 const ID_A: u32 = 0x50484330;
 const ID_B: u32 = 0x4e545031;
 
+/// Digest of every field of a tracking report (the poller must forward what chronyd said, unmodified).
+fn report_digest(t: &chrony_candm::reply::Tracking) -> u64 {
+    use std::hash::{Hash, Hasher};
+    let mut h = std::collections::hash_map::DefaultHasher::new();
+    format!("{t:?}").hash(&mut h);
+    h.finish()
+}
+
 fn msg_class(m: &Message) -> String {
     match m {
-        Message::ClockErrorBoundData((_, phc, as_of)) => format!("data(phc={phc},as_of={}.{:09})", as_of.tv_sec, as_of.tv_nsec),
+        Message::ClockErrorBoundData((t, phc, as_of)) => format!("data(phc={phc},as_of={}.{:09},report={:016x})", as_of.tv_sec, as_of.tv_nsec, report_digest(t)),
         Message::ChronyNotRespondingGracePeriod => "silent-grace".into(),
         Message::ChronyNotResponding => "silent".into(),
         Message::PhcErrorBoundRetrievalFailedGracePeriod => "phc-failed-grace".into(),
@@ -865,12 +873,12 @@ fn msg_class(m: &Message) -> String {
 }
 
 fn c13_run(steps: &[Step], phc_cfg: bool, dir: &std::path::Path) -> Result<Vec<(Vec<String>, String)>, String> {
-    poller_run(steps, phc_cfg, dir).map(|v| v.into_iter().map(|(m, e)| (m.iter().map(msg_class).collect(), e)).collect())
+    poller_run(steps, phc_cfg, dir, true).map(|v| v.into_iter().map(|(m, e)| (m.iter().map(msg_class).collect(), e)).collect())
 }
 
 /// Run the steps through the real polling loop; per step: the messages sent to the writer thread
 /// and the class of message the reference poller expects.
-fn poller_run(steps: &[Step], phc_cfg: bool, dir: &std::path::Path) -> Result<Vec<(Vec<Message>, String)>, String> {
+fn poller_run(steps: &[Step], phc_cfg: bool, dir: &std::path::Path, vary_report: bool) -> Result<Vec<(Vec<Message>, String)>, String> {
     // one invocation of the real polling loop for the whole sequence (PollerLife::run_lifetime): what the loop
     // keeps in its own variables between polls is kept. The PHC error bound is a sysfs-like file (fixed
     // metadata) that is there or not, readable or not, from one poll to the next.
@@ -886,8 +894,9 @@ fn poller_run(steps: &[Step], phc_cfg: bool, dir: &std::path::Path) -> Result<Ve
             last_good: i128,
             poll_start: i128,
             expected: Vec<String>,
+            digest: u64,
         }
-        let st = std::rc::Rc::new(std::cell::RefCell::new(St { now: m0, real_off: 0, last_good: m0 - 5 * S, poll_start: m0, expected: vec![] }));
+        let st = std::rc::Rc::new(std::cell::RefCell::new(St { now: m0, real_off: 0, last_good: m0 - 5 * S, poll_start: m0, expected: vec![], digest: 0 }));
         let mut life = PollerLife::new();
         let (s1, steps1, file1) = (st.clone(), steps_v.clone(), phc_file.clone());
         let step = move |k: usize| -> Query {
@@ -897,15 +906,23 @@ fn poller_run(steps: &[Step], phc_cfg: bool, dir: &std::path::Path) -> Result<Ve
             s.real_off += stp.wall_step_ms as i128 * 1_000_000;
             vclock::set_times(R0 + (s.now - m0) + s.real_off, s.now);
             s.poll_start = s.now;
-            let spec = |id: u32| TrackSpec { ref_id: id, leap: 0, ref_time_ns: R0, offset_bits: encode_float(0.001), delay_bits: encode_float(0.01), disp_bits: encode_float(0.01), interval_bits: encode_float(16.0) };
+            // (C13 only) the report's own content changes from poll to poll: interval from sub-1/8 s to 1024 s, both
+            // offset signs, several delays - whatever it says must reach the writer thread as chronyd said it
+            let (iv, off, dl) = if vary_report { ([16.0, 0.0625, 0.0, 0.3, 1024.0][k % 5], [0.001, -0.02, 0.0][k % 3], [0.01, 0.5, 0.0001, 0.0][k % 4]) } else { (16.0, 0.001, 0.01) };
+            let spec = |id: u32| TrackSpec { ref_id: id, leap: 0, ref_time_ns: R0, offset_bits: encode_float(off), delay_bits: encode_float(dl), disp_bits: encode_float(0.01), interval_bits: encode_float(iv) };
             let real_now = R0 + (s.now - m0) + s.real_off;
-            let answer = match stp.ans {
-                Ans::TrackA => Answer::Wire(tracking_wire(&TrackSpec { ref_time_ns: real_now - S, ..spec(ID_A) }, 7)),
-                Ans::TrackB => Answer::Wire(tracking_wire(&TrackSpec { ref_time_ns: real_now - S, ..spec(ID_B) }, 7)),
-                Ans::Unsync => Answer::Wire(tracking_wire(&TrackSpec { leap: 3, ref_time_ns: real_now - S, ..spec(ID_B) }, 7)),
-                Ans::Stale => Answer::Wire(tracking_wire(&TrackSpec { ref_time_ns: real_now - 129 * S, ..spec(ID_B) }, 7)),
-                Ans::Silent => Answer::Silent,
-                Ans::Other => Answer::Wire(null_reply_wire(7)),
+            let sent: Option<TrackSpec> = match stp.ans {
+                Ans::TrackA => Some(TrackSpec { ref_time_ns: real_now - S, ..spec(ID_A) }),
+                Ans::TrackB => Some(TrackSpec { ref_time_ns: real_now - S, ..spec(ID_B) }),
+                Ans::Unsync => Some(TrackSpec { leap: 3, ref_time_ns: real_now - S, ..spec(ID_B) }),
+                Ans::Stale => Some(TrackSpec { ref_time_ns: real_now - 129 * S, ..spec(ID_B) }),
+                Ans::Silent | Ans::Other => None,
+            };
+            s.digest = sent.as_ref().map(|t| report_digest(&tracking_of(t))).unwrap_or(0);
+            let answer = match (&sent, stp.ans) {
+                (Some(t), _) => Answer::Wire(tracking_wire(t, 7)),
+                (None, Ans::Other) => Answer::Wire(null_reply_wire(7)),
+                _ => Answer::Silent,
             };
             if stp.phc_readable || stp.phc_read_errno != 0 {
                 // the device's error bound changes from one poll to the next
@@ -933,7 +950,7 @@ fn poller_run(steps: &[Step], phc_cfg: bool, dir: &std::path::Path) -> Result<Ve
                     if matches && !stp.phc_readable {
                         "phc-failed*".to_string()
                     } else {
-                        format!("data(phc={},as_of={as_of})", if matches { 12345 + 7 * k as i64 } else { 0 })
+                        format!("data(phc={},as_of={as_of},report={:016x})", if matches { 12345 + 7 * k as i64 } else { 0 }, s.digest)
                     }
                 }
                 Ans::Silent | Ans::Other => {
@@ -1083,11 +1100,37 @@ pub fn run_c13(ctx: &Ctx) -> i32 {
             Err(e) => sink.add("C13:panic".into(), format!("poller panicked in the long lifetime: {e}"), json!({"check": "C13", "phase": "long lifetime"})),
         }
     }
+    // count-armed behaviour: each step kind a thousand times in a row (an hour-long outage, a PHC attribute that is
+    // gone for a quarter of an hour ...), followed by every step kind once, in one lifetime each
+    let mut repeated_polls = 0u64;
+    {
+        let reps: Vec<Vec<Step>> = alpha.iter().map(|a| { let mut v = vec![*a; 1000]; v.extend(alpha.iter().cloned()); v }).collect();
+        let outs = par::map(reps.len(), |i| {
+            let dir = base.join(format!("c13-rep-{i}"));
+            let _ = std::fs::create_dir_all(&dir);
+            c13_run(&reps[i], true, &dir)
+        });
+        for (i, o) in outs.into_iter().enumerate() {
+            repeated_polls += reps[i].len() as u64;
+            match o {
+                Ok(res) => {
+                    for (k, (got, exp)) in res.iter().enumerate() {
+                        if got.len() != 1 || !class_matches(&got[0], exp) {
+                            sink.add("C13:repeated-step".into(), format!("poll {k} of a lifetime that repeats {:?} 1000 times and then goes through every step kind: poller sent {:?} where {} is expected", alpha[i], got, exp), json!({"check": "C13", "phase": "one step kind repeated 1000 times", "step": format!("{:?}", alpha[i]), "failing_step": k, "observed": got, "expected": exp}));
+                            break;
+                        }
+                    }
+                }
+                Err(e) => sink.add("C13:panic".into(), format!("poller panicked in a repeated-step lifetime: {e}"), json!({"check": "C13", "phase": "one step kind repeated 1000 times", "step": format!("{:?}", alpha[i])})),
+            }
+        }
+    }
     // end to end through the release binary (procmc/e2e.rs): the PHC clause as the daemon is really started
     let e2e = c13_end_to_end(ctx, &mut sink);
     let coverage = cov(vec![
         ("end_to_end_through_the_release_binary", e2e),
         ("long_lifetime_polls", json!(long_steps.len())),
+        ("polls_in_lifetimes_that_repeat_one_step_kind_1000_times", json!(repeated_polls)),
         ("states", json!(alpha.len() * 2)),
         ("transitions", json!(n * depth as u64)),
         ("traces_validated_against_impl", json!(n)),
